@@ -159,13 +159,13 @@ PROPS.update({
         "level": "other",
         "lean_modules": ["ApdVerif.Props.C11", "ApdVerif.Props.C11Settle", "ApdVerif.Props.C11Sqrt"],
         "streams": [{"stream": "roots", "n": {"quick": 20000, "thorough": 400000}}],
-        "projections": ["value", "repr", "flags", "err"],
+        "projections": ["value", "repr", "flags", "err", "iter"],
         "oracle_tags": ["C11"],
         "explanation": "Sqrt: correctness theorem for every operand (C11_sqrt_correct_partial: Newton error analysis over the reals + model loop + settling step + roundings = specSqrt; side condition workp+6 <= 100000+e/2 proved necessary by C11_sqrt_sys). Also proved: integer-root oracles, specSqrt is the half-even nearest multiple of the quantum stated on squares, the Cbrt ulp test, perfect-cube detection, loop termination, special operands. NOT proved: no Inexact on exactly representable roots; Cbrt one-ulp accuracy. The executable models of Sqrt and Cbrt are correspondence-checked and every generated case is judged by the proved oracles; generators aim at roots next to rounding boundaries",
     },
     "C13": {
         "level": "proof",
-        "lean_modules": ["ApdVerif.Props.C13", "ApdVerif.Props.C14"],
+        "lean_modules": ["ApdVerif.Props.C13", "ApdVerif.Props.C14", "ApdVerif.Props.C13Decompose"],
         "theorem_prefixes": ["C13_"],
         "streams": [{"stream": "text", "n": {"quick": 20000, "thorough": 400000}}],
         "projections": ["text", "format", "parse"],
